@@ -73,6 +73,22 @@ def nows(x):
 
 
 def check_tables(rep, F):
+    # ---- R1.7 every mapping definition is an object of its own: no mutable process-wide (function-local static) state in the classes that hold
+    # or apply a definition - a static cache keyed by name makes the second molecule type use the first one's map of the same name
+    rep.rule("R1.7", "CGMoleculeDef, CGEngine, Map, BeadMap subclasses and TopologyMap keep no mutable function-local static state: what a definition resolves "
+                     "to depends on that definition alone, not on the definitions looked up before in the process")
+    n_fn = 0
+    for f_ in F.funcs:
+        cls_ = (f_.j.get("class") or "")
+        if f_.j["template"] == "pattern" or not re.search(r"(CGMoleculeDef|CGEngine|TopologyMap|\bMap\b|BeadMap|Map_Sphere|Map_Ellipsoid)$", cls_.split("::")[-1] if cls_ else ""):
+            continue
+        n_fn += 1
+        stat = [d for d in f_.decls.values() if d.get("static") and not re.match(r"^\s*(const|constexpr)\b", d.get("type") or "")]
+        rep.check(not stat, "R1.7", "no-static-state|" + f_.qname.split("votca::csg::")[-1] + "/%d" % len(f_.j["params"]), "no mutable static local",
+                  "%s keeps the function-local static '%s' (%s): it is shared by all mapping definitions of the process, so with two molecule types that reuse a name "
+                  "(e.g. a map 'A' in both files of --cg \"a.xml;b.xml\") the second is resolved to the first one's entry and its beads are mapped with foreign weights"
+                  % (f_.qname, stat[0].get("name") if stat else "", (stat[0].get("type_written") or stat[0].get("type") or "")[:60] if stat else ""), f_.loc(), sample=bool(stat) or n_fn == 1)
+    rep.floor("R1.7", n_fn, 15, "member functions of the definition/mapping classes")
     rep.rule("R1.6", "definition tables: symmetry 1 -> spherical map, 3 -> ellipsoidal map, anything else throws (both when parsing and when creating the "
                      "map); bonded tag -> interaction class -> bead count agree (bond/IBond/2, angle/IAngle/3, dihedral/IDihedral/4); the CG topology "
                      "rebuilds its exclusions after all molecules were created; every molecule's map is added to the topology map")
